@@ -4,6 +4,7 @@ import (
 	"flag"
 	"fmt"
 	"math/rand"
+	"os"
 	"sync"
 	"time"
 
@@ -22,11 +23,46 @@ func pureRun(args []string) int {
 	seed := fs.Int64("seed", 1, "")
 	n := fs.Int("n", 300, "triggers")
 	out := fs.String("out", "", "")
+	patience := fs.Duration("patience", 40*time.Second, "how long one trigger's round (24 single-threaded calls + the hammer) may take")
 	fs.Parse(args)
 	r := rand.New(rand.NewSource(*seed))
 	viol := []string{}
 	evals, triggers := 0, 0
+	// watchdog: NextFireTime runs in this process here (the supervised workers of `qh cron` are where hangs are attributed to an input);
+	// if one trigger's round does not finish in time, report it as what it is — NextFireTime did not return — instead of hanging the check
+	var cur struct {
+		sync.Mutex
+		expr string
+		prev int64
+	}
+	finish := func() {
+		writeJSON(*out+"/stats.json", map[string]any{"seed": *seed, "evaluations": evals, "distinct_nontrivial": triggers,
+			"distribution": map[string]map[string]int{"triggers": {"hammered": triggers}}, "violations": viol})
+		fmt.Printf("pure: %d triggers hammered from 16 goroutines (%d calls), %d violations\n", triggers, evals, len(viol))
+	}
+	progress := make(chan struct{}, 1)
+	stopDog := make(chan struct{})
+	defer close(stopDog)
+	go func() {
+		for {
+			select {
+			case <-progress:
+			case <-stopDog:
+				return
+			case <-time.After(*patience):
+				cur.Lock()
+				viol = append(viol, fmt.Sprintf("C06 NextFireTime did not return within %v: expr=%q (last prev asked %d) — it must return promptly for every accepted expression and prev", *patience, cur.expr, cur.prev))
+				cur.Unlock()
+				finish()
+				os.Exit(0)
+			}
+		}
+	}()
 	for i := 0; i < *n; i++ {
+		select {
+		case progress <- struct{}{}:
+		default:
+		}
 		c := crongen.Valid(r)
 		loc := time.UTC
 		if r.Intn(2) == 0 {
@@ -37,6 +73,9 @@ func pureRun(args []string) int {
 			continue
 		}
 		triggers++
+		cur.Lock()
+		cur.expr = c.Expr
+		cur.Unlock()
 		desc := tr.Description()
 		prevs := make([]int64, 24)
 		want := make([]string, len(prevs))
@@ -46,6 +85,9 @@ func pureRun(args []string) int {
 				w = 0
 			}
 			prevs[k] = w * 1e9
+			cur.Lock()
+			cur.prev = prevs[k]
+			cur.Unlock()
 			v, e := tr.NextFireTime(prevs[k])
 			want[k] = fmt.Sprint(v, e)
 		}
@@ -82,8 +124,6 @@ func pureRun(args []string) int {
 			}
 		}
 	}
-	writeJSON(*out+"/stats.json", map[string]any{"seed": *seed, "evaluations": evals, "distinct_nontrivial": triggers,
-		"distribution": map[string]map[string]int{"triggers": {"hammered": triggers}}, "violations": viol})
-	fmt.Printf("pure: %d triggers hammered from 16 goroutines (%d calls), %d violations\n", triggers, evals, len(viol))
+	finish()
 	return 0
 }
